@@ -127,6 +127,7 @@ namespace rpc {
                     LOG_ERROR_RETURN(EINVAL, -1, "context not issued");
                 if (args.phase == OooPhase::WAITING)
                     LOG_ERROR_RETURN(EINVAL, -1, "context already in waiting");
+                auto timeout = args.timeout;
                 for (bool hold_lock = false; !hold_lock;) {
                     switch (args.phase) {                        
                         case OooPhase::COLLECTED:
@@ -143,7 +144,7 @@ namespace rpc {
                                     hold_lock = true;
                                     break;
                                 }
-                                auto ret = m_wait.wait(args.phaselock, args.timeout);
+                                auto ret = m_wait.wait(args.phaselock, timeout);
                                 // Check if collected
                                 if (args.phase == OooPhase::COLLECTED &&
                                     args.th == CURRENT) {
@@ -151,10 +152,19 @@ namespace rpc {
                                 }
                                 if (ret == -1) {
                                     // or just timed out
+                                    size_t erased;
                                     {
                                         SCOPED_LOCK(m_mutex_map);
-                                        m_map.erase(args.tag);
+                                        erased = m_map.erase(args.tag);
                                         m_cond_collected.notify_one();
+                                    }
+                                    if (erased == 0) {
+                                        // The reader has already taken this context out of the map
+                                        // and is collecting the response into its buffers. The context
+                                        // must stay alive until the reader marks it COLLECTED (and
+                                        // interrupts this thread), so keep waiting, without a deadline.
+                                        timeout = Timeout();
+                                        break;
                                     }
                                     LOG_ERROR_RETURN(ETIMEDOUT, -1, "waiting for completion timeout");
                                 }
